@@ -13,7 +13,9 @@ pub mod cell;
 pub mod futex;
 pub mod stats;
 
+pub mod c41;
 pub mod c43;
+pub mod world;
 
 pub use futex::futex_model;
 
@@ -32,6 +34,7 @@ impl Scenario {
 /// The scenarios of a named model for the given parameters (`None`: unknown model).
 pub fn scenarios(model: &str, params: &[i64]) -> Option<Vec<Scenario>> {
     match model {
+        "c41" => Some(c41::scenarios(params)),
         "c43" => Some(c43::scenarios(params)),
         "c44" => Some(crate::memory::verif_c44::scenarios(params)),
         _ => None,
